@@ -338,3 +338,55 @@ func staticCallSites(fns []*ssa.Function, f *ssa.Function) int {
 	}
 	return n
 }
+
+// callsWithCtx visits every call of fn and of the module functions it calls
+// statically (to the given depth), each with the chain of call sites that
+// leads to it, so that a helper's parameters resolve to fn's own values.
+func callsWithCtx(fn *ssa.Function, depth int, visit func(c *ssa.Call, ctx *symCtx)) {
+	var walk func(f *ssa.Function, ctx *symCtx, d int, seen map[*ssa.Function]bool)
+	walk = func(f *ssa.Function, ctx *symCtx, d int, seen map[*ssa.Function]bool) {
+		for _, b := range f.Blocks {
+			for _, in := range b.Instrs {
+				c, ok := in.(*ssa.Call)
+				if !ok {
+					continue
+				}
+				visit(c, ctx)
+				g := c.Call.StaticCallee()
+				if g == nil || g.Blocks == nil || d >= depth || seen[g] || !strings.HasPrefix(pkgPathOf(g), modPath) {
+					continue
+				}
+				seen[g] = true
+				walk(g, &symCtx{call: c, parent: ctx}, d+1, seen)
+				delete(seen, g)
+			}
+		}
+	}
+	walk(fn, nil, 0, map[*ssa.Function]bool{fn: true})
+}
+
+// sliceLiteralElems: the values stored into the fresh array behind a slice
+// literal (the form a variadic argument list takes), in no particular order.
+func sliceLiteralElems(v ssa.Value) []ssa.Value {
+	sl, ok := v.(*ssa.Slice)
+	if !ok {
+		return nil
+	}
+	al, ok := sl.X.(*ssa.Alloc)
+	if !ok {
+		return nil
+	}
+	var out []ssa.Value
+	for _, ref := range *al.Referrers() {
+		ia, ok := ref.(*ssa.IndexAddr)
+		if !ok {
+			continue
+		}
+		for _, r2 := range *ia.Referrers() {
+			if st, ok := r2.(*ssa.Store); ok && st.Addr == ssa.Value(ia) {
+				out = append(out, st.Val)
+			}
+		}
+	}
+	return out
+}
